@@ -158,3 +158,82 @@ pub fn stream_shape(opt: &HashMap<String, String>) -> i32 {
     fs::write(format!("{}/shape_{}_meta.json", dir, profile_name()), meta).unwrap();
     0
 }
+
+// ------------------------------------------------------------------ histories
+use kodama::{Dendrogram, LinkageState};
+
+pub fn run_history<T: Bits>(h: &History) -> Vec<Outcome> {
+    let mut st: LinkageState<T> = LinkageState::new();
+    let mut d: Dendrogram<T> = Dendrogram::new(0);
+    let mut outs = Vec::new();
+    for c in &h.calls {
+        let mut m: Vec<T> = c.bits.iter().map(|&b| T::from_bits64(b)).collect();
+        acc_reset();
+        let r = catch(|| call_with::<T>(c.algo, c.method, &mut st, &mut m, c.n as usize, &mut d));
+        let acc = acc_get();
+        outs.push(match r {
+            Ok(()) => Outcome::Ok { obs: d.observations(), steps: steps_of(&d),
+                                    after: m.iter().map(|x| x.to_bits64()).collect(), acc },
+            Err((k, msg)) => Outcome::Panic(k, msg),
+        });
+    }
+    outs
+}
+
+pub fn history_coq(h: &History) -> String {
+    let calls: Vec<String> = h.calls.iter().map(|c| format!("({},{},{},{})", c.algo, c.method, c.n, coq_list(&c.bits))).collect();
+    format!("{} {} [{}]", if h.wide { "hist64" } else { "hist32" }, profile_code(), calls.join(";"))
+}
+
+pub fn history_tokens(outs: &[Outcome]) -> Vec<i128> {
+    let mut t = Vec::new();
+    for o in outs { t.extend(tokens(o)); t.push(-1); }
+    t
+}
+
+pub fn stream_hist(opt: &HashMap<String, String>) -> i32 {
+    let seed = opt_u64(opt, "seed", 1);
+    let thorough = opt_str(opt, "tier", "quick") == "thorough";
+    let count = opt_u64(opt, "count", if thorough { 1500 } else { 260 }) as usize;
+    let shards = opt_u64(opt, "shards", 16) as usize;
+    let dir = opt_str(opt, "out", "build/streams");
+    let mut rng = Rng::new(seed.wrapping_mul(0x1000_0001).wrapping_add(17));
+    let mut sh = Shards::new(dir, "hist", shards);
+    let mut hist_kind = BTreeMap::new(); let mut hist_len = BTreeMap::new(); let mut hist_out = BTreeMap::new();
+    let mut hist_shape = BTreeMap::new();
+    let mut distinct = HashSet::new(); let mut nontrivial = HashSet::new();
+    let mut samples: Vec<String> = vec![];
+    let mut calls_total = 0u64;
+    for i in 0..count {
+        let h = history(&mut rng, thorough);
+        let outs = if h.wide { run_history::<f64>(&h) } else { run_history::<f32>(&h) };
+        let cost: u64 = h.calls.iter().map(|c| AlgoCase { algo: c.algo, method: c.method, wide: h.wide, n: c.n, bits: vec![], family: "" }.model_cost()).sum();
+        sh.add(&format!("h{}", i), cost, history_coq(&h), &history_tokens(&outs));
+        bump(&mut hist_len, &format!("{:02}", h.calls.len()));
+        let mut key = vec![h.wide as u64];
+        let mut grew = false; let mut shrank = false; let mut prev: Option<u64> = None; let mut panics = 0;
+        for (c, o) in h.calls.iter().zip(&outs) {
+            calls_total += 1;
+            bump(&mut hist_kind, c.kind);
+            bump(&mut hist_out, &match o { Outcome::Ok { .. } => "ok".to_string(), Outcome::Panic(k, _) => { panics += 1; format!("panic{}", k) } });
+            key.push(c.algo as u64); key.push(c.method as u64); key.push(c.n); key.extend_from_slice(&c.bits);
+            if let Some(p) = prev { if c.n > p { grew = true; } if c.n < p { shrank = true; } }
+            prev = Some(c.n);
+        }
+        bump(&mut hist_shape, &format!("grew={} shrank={} panics={}", grew, shrank, panics.min(2)));
+        let k = hash64(&key);
+        distinct.insert(k);
+        if (grew || shrank) && outs.iter().filter(|o| matches!(o, Outcome::Ok { steps, .. } if steps.len() >= 2)).count() >= 2 { nontrivial.insert(k); }
+        if samples.len() < 3 && h.calls.len() <= 3 && h.calls.iter().all(|c| c.n <= 4) {
+            samples.push(format!("{} -> {}", history_coq(&h), join(&history_tokens(&outs), " ")));
+        }
+    }
+    sh.write(HEADER);
+    let meta = format!(
+        "{{\"stream\":\"hist\",\"profile\":{},\"seed\":{},\"evaluations\":{},\"calls\":{},\"distinct\":{},\"distinct_nontrivial\":{},\"call_kinds\":{},\"lengths\":{},\"outcomes\":{},\"size_walks\":{},\"samples\":[{}]}}",
+        json_str(profile_name()), seed, count, calls_total, distinct.len(), nontrivial.len(),
+        json_hist(&hist_kind), json_hist(&hist_len), json_hist(&hist_out), json_hist(&hist_shape),
+        samples.iter().map(|s| json_str(s)).collect::<Vec<_>>().join(","));
+    fs::write(format!("{}/hist_{}_meta.json", dir, profile_name()), meta).unwrap();
+    0
+}
